@@ -161,6 +161,17 @@ def gen_handshake(rng):
         # first probe answered by garbage/late junk, second by the EBB
         step["reply"] = {"0": rng.choice(["\r\n", "OK\r\n", "!8 Err: Unknown command\r\n"])}
         dev["timing"] = "identified by the second probe"
+    elif c == 9 and rng.random() < 0.5:
+        op = rng.choice(["reset", "close"])
+        exc = rng.choice(["SerialException", "SerialTimeoutException", "PortNotOpenError"])
+        step["faults"] = [{"op": op, "at": 0, "kind": "raise", "exc": exc}]
+        if op == "close":
+            # close() only happens when the device is refused: combine with a silent device
+            step["faults"].append({"op": "read", "at": 0, "kind": "silence"})
+            dev["identity"] = "silent"
+            dev["timing"] = "absent"
+        else:
+            dev["identity"] = "raises at reset_input_buffer 0"
     else:
         step["ports"] = []
         dev["identity"] = "no port enumerated"
